@@ -1087,6 +1087,7 @@ struct Extractor
     {
         Expr const* e = dyn_cast<Expr>(cond);
         int neg = 0;
+        bool descended = false;
         while (e)
         {
             Expr const* n = strip(e);
@@ -1111,6 +1112,17 @@ struct Extractor
                     }
                 }
             }
+            // short-circuit operators: the branch in this block is decided
+            // by the right-most operand (the others have their own blocks)
+            if (auto* lb = dyn_cast<BinaryOperator>(n))
+            {
+                if (lb->getOpcode() == BO_LAnd || lb->getOpcode() == BO_LOr)
+                {
+                    descended = true;
+                    e = lb->getRHS();
+                    continue;
+                }
+            }
             // implicit bool conversion through operator bool
             if (auto* mc = dyn_cast<CXXMemberCallExpr>(n))
             {
@@ -1131,6 +1143,14 @@ struct Extractor
         if (!e)
             return;
         c.str("core", text(e, 200));
+        if (descended)
+        {
+            // refs/calls of the deciding operand only
+            std::set<std::string> er, ec;
+            collectRefs(e, er, ec);
+            c.raw("erefs", jstrlist(std::vector<std::string>(er.begin(), er.end())));
+            c.raw("ecalls", jstrlist(std::vector<std::string>(ec.begin(), ec.end())));
+        }
         if (auto* bo = dyn_cast<BinaryOperator>(e))
         {
             c.str("op", bo->getOpcodeStr());
